@@ -98,6 +98,7 @@ type C18SS struct {
 	Ps *C18S1
 	Y  float32
 }
+type C18E0 struct{}
 type C18F0 func()
 type C18F1 func(int) int
 
@@ -123,7 +124,7 @@ var c18base = map[string]reflect.Type{
 	"NF32": reflect.TypeOf(C18NF32(0)), "NStr": reflect.TypeOf(C18NStr("")), "NBool": reflect.TypeOf(C18NBool(false)),
 	"Level": reflect.TypeOf(C18Level(0)), "ULevel": reflect.TypeOf(C18ULevel(0)), "Temp": reflect.TypeOf(C18Temp(0)), "Errno": reflect.TypeOf(C18Errno(0)),
 	"S1": reflect.TypeOf(C18S1{}), "S2": reflect.TypeOf(C18S2{}), "SF": reflect.TypeOf(C18SF{}), "SB": reflect.TypeOf(C18SB{}),
-	"SN": reflect.TypeOf(C18SN{}), "SS": reflect.TypeOf(C18SS{}),
+	"SN": reflect.TypeOf(C18SN{}), "SS": reflect.TypeOf(C18SS{}), "E0": reflect.TypeOf(C18E0{}),
 	"F0": reflect.TypeOf(C18F0(nil)), "F1": reflect.TypeOf(C18F1(nil)), "func()": reflect.TypeOf(func() {}),
 }
 
@@ -263,6 +264,12 @@ func (p *c18parser) term() *c18node {
 		for i := 0; i < k; i++ {
 			n.kids = append(n.kids, p.term())
 		}
+	case "ss": // backing[lo:hi] of the backing array with label a[0]; all elements of the backing array follow
+		n.a = []string{p.next(), p.next(), p.next()}
+		k := p.num()
+		for i := 0; i < k; i++ {
+			n.kids = append(n.kids, p.term())
+		}
 	case "p":
 		if p.peek() == "nil" {
 			p.next()
@@ -340,7 +347,7 @@ func (n *c18node) print(b *[]string) {
 	switch n.head {
 	case "st", "ar":
 		*b = append(*b, strconv.Itoa(len(n.kids)))
-	case "sl":
+	case "sl", "ss":
 		*b = append(*b, strconv.Itoa(len(n.kids)))
 	case "mp":
 		*b = append(*b, strconv.Itoa(len(n.kids)/2))
@@ -411,6 +418,20 @@ func c18build(n *c18node, h c18heap) reflect.Value {
 		if h != nil {
 			h[key] = v
 		}
+	case "ss":
+		key := "ssb" + n.a[0]
+		back, ok := h[key]
+		if !ok {
+			back = reflect.MakeSlice(t, len(n.kids), len(n.kids))
+			for i, k := range n.kids {
+				back.Index(i).Set(c18build(k, h))
+			}
+			if h != nil {
+				h[key] = back
+			}
+		}
+		lo, hi := int(vh.I64(n.a[1])), int(vh.I64(n.a[2]))
+		v.Set(back.Slice(lo, hi))
 	case "mp":
 		key := "mp" + n.a[0]
 		if o, ok := h[key]; ok && n.a[0] != "0" {
@@ -601,6 +622,10 @@ func (e *c18expr) build(h c18heap) Expr {
 }
 
 type c18op struct {
+	variadic bool
+	elemName string
+	elemT    reflect.Type
+	packed   [][]c18arg // variadic: the elements of the packed last argument, per input
 	tyNames []string
 	types   []reflect.Type
 	e       *c18expr
@@ -616,6 +641,15 @@ func c18parse(toks []string) *c18op {
 		op.tyNames = append(op.tyNames, name)
 		op.types = append(op.types, c18type(name))
 	}
+	if toks[0] == "c18.evv" {
+		op.variadic = true
+		op.elemName = strings.SplitN(p.next(), ":", 2)[0]
+		op.elemT = c18type(op.elemName)
+		if op.types[nT-1].Kind() != reflect.Slice || op.types[nT-1].Elem() != op.elemT {
+			panic("c18: variadic element type")
+		}
+		nT--
+	}
 	op.e = p.expr()
 	k := p.num()
 	for i := 0; i < k; i++ {
@@ -629,6 +663,19 @@ func c18parse(toks []string) *c18op {
 			}
 		}
 		op.inputs = append(op.inputs, tup)
+		if op.variadic {
+			var es []c18arg
+			m := p.num()
+			for j := 0; j < m; j++ {
+				if p.peek() == "nil" {
+					p.next()
+					es = append(es, c18arg{isNil: true})
+				} else {
+					es = append(es, c18arg{n: p.term()})
+				}
+			}
+			op.packed = append(op.packed, es)
+		}
 	}
 	if p.pos != len(toks) {
 		panic("c18: trailing tokens")
@@ -638,6 +685,20 @@ func c18parse(toks []string) *c18op {
 
 func (op *c18op) print() string {
 	b := []string{"c18.ev", strconv.Itoa(len(op.types))}
+	if op.variadic {
+		b[0] = "c18.evv"
+	}
+	tdesc := func(name string, t reflect.Type) string {
+		impls := "-"
+		if t.Kind() == reflect.Interface {
+			if t.NumMethod() == 0 {
+				impls = "*"
+			} else if l := c18impls[name]; len(l) > 0 {
+				impls = strings.Join(l, ",")
+			}
+		}
+		return fmt.Sprintf("%s:%s:%d:%s", name, c18kind(t), t.Size(), impls)
+	}
 	for i, t := range op.types {
 		impls := "-"
 		if t.Kind() == reflect.Interface {
@@ -649,14 +710,26 @@ func (op *c18op) print() string {
 		}
 		b = append(b, fmt.Sprintf("%s:%s:%d:%s", op.tyNames[i], c18kind(t), t.Size(), impls))
 	}
+	if op.variadic {
+		b = append(b, tdesc(op.elemName, op.elemT))
+	}
 	op.e.print(&b)
 	b = append(b, strconv.Itoa(len(op.inputs)))
-	for _, tup := range op.inputs {
+	pa := func(a c18arg) {
+		if a.isNil {
+			b = append(b, "nil")
+		} else {
+			a.n.print(&b)
+		}
+	}
+	for i, tup := range op.inputs {
 		for _, a := range tup {
-			if a.isNil {
-				b = append(b, "nil")
-			} else {
-				a.n.print(&b)
+			pa(a)
+		}
+		if op.variadic {
+			b = append(b, strconv.Itoa(len(op.packed[i])))
+			for _, a := range op.packed[i] {
+				pa(a)
 			}
 		}
 	}
@@ -682,13 +755,15 @@ func c18res(b bool, err error) string {
 	return "f"
 }
 
+var c18variadic bool // mode of the op being run
+
 func c18eval(e Expr, in []reflect.Value) string {
-	return vh.Catch(func() string { return c18res(e.Eval(in, false)) })
+	return vh.Catch(func() string { return c18res(e.Eval(in, c18variadic)) })
 }
 
 func c18resolve(e Expr, types []reflect.Type) string {
 	return vh.Catch(func() string {
-		if err := e.Resolve(types, false); err != nil {
+		if err := e.Resolve(types, c18variadic); err != nil {
 			return "err:" + vh.Class(err.Error())
 		}
 		return "ok"
@@ -778,7 +853,7 @@ func TestVerifC18(t *testing.T) {
 	defer out.Close()
 	annotate := os.Getenv("VERIF_MODE") == "annotate"
 	for _, line := range vh.ReadOps() {
-		if len(line.Toks) == 0 || line.Toks[0] != "c18.ev" {
+		if len(line.Toks) == 0 || (line.Toks[0] != "c18.ev" && line.Toks[0] != "c18.evv") {
 			continue
 		}
 		obs := vh.Catch(func() string {
@@ -797,18 +872,32 @@ func TestVerifC18(t *testing.T) {
 
 func c18run(op *c18op) string {
 	h := c18heap{}
+	c18variadic = op.variadic
+	defer func() { c18variadic = false }()
 	e := op.e.build(h)
 	r := c18resolve(e, op.types)
 	if r != "ok" {
 		return "R=" + r
 	}
 	var ins [][]reflect.Value
-	for _, tup := range op.inputs {
+	for i, tup := range op.inputs {
 		var in []reflect.Value
 		for j, a := range tup {
 			in = append(in, c18input(op.types[j], a, h))
 		}
+		if op.variadic { // the shape of a real call: the variadic tail packed into one slice
+			ps := reflect.MakeSlice(op.types[len(op.types)-1], len(op.packed[i]), len(op.packed[i]))
+			for j, a := range op.packed[i] {
+				ps.Index(j).Set(c18input(op.elemT, a, h))
+			}
+			in = append(in, ps)
+		}
 		ins = append(ins, in)
+	}
+	// the caller's argument lists, to check afterwards that no evaluation rewrote them
+	var snap [][]reflect.Value
+	for _, in := range ins {
+		snap = append(snap, append([]reflect.Value(nil), in...))
 	}
 	var ans []string
 	for _, in := range ins {
@@ -828,7 +917,21 @@ func c18run(op *c18op) string {
 			pure = "0"
 		}
 	}
+	for i, in := range ins {
+		if len(in) != len(snap[i]) {
+			pure = "0"
+			continue
+		}
+		for j := range in {
+			if in[j] != snap[i][j] { // the very same reflect.Value (type, data pointer, flags)
+				pure = "0"
+			}
+		}
+	}
 	res += " P=" + pure
+	if op.variadic {
+		return res
+	}
 	switch {
 	case op.e.kind == "eq" && len(op.types) == 1:
 		res += " O=" + c18eqOracle(op, h, ins)
